@@ -362,9 +362,17 @@ func (ex *Exec) heapArr(st *State, key, valSort string) *Term {
 	return a
 }
 
-func (ex *Exec) havocHeap(st *State) {
+// havocHeap forgets the contents of every heap map that a callee may have written. The contents of slices
+// and maps are kept unless the slice/map was handed to the callee (havocArgs) or the caller is a loop that
+// stores into slices (sliceToo): code that mutates a slice it reaches only through other objects is not modelled.
+func (ex *Exec) havocHeap(st *State) { ex.havocHeapX(st, false) }
+
+func (ex *Exec) havocHeapX(st *State, sliceToo bool) {
 	for k, a := range st.heap {
 		if ex.immutableKeys[k] {
+			continue
+		}
+		if !sliceToo && (strings.HasPrefix(k, "slice#") || strings.HasPrefix(k, "map#")) {
 			continue
 		}
 		st.heap[k] = ex.declare("H!"+k, a.Sort)
@@ -387,7 +395,7 @@ func (ex *Exec) heapArrE(st *State, key, valSort string) *Term {
 	if a, ok := st.heap[key]; ok {
 		return a
 	}
-	if ex.immutableKeys[key] {
+	if ex.immutableKeys[key] || strings.HasPrefix(key, "slice#") || strings.HasPrefix(key, "map#") {
 		return ex.heapArr(st, key, valSort)
 	}
 	if ep, ok := st.heap["!epoch"]; ok {
@@ -790,4 +798,39 @@ func (ex *Exec) loadGlobal(st *State, g *ssa.Global, path []int) Val {
 		return ex.freshVal(st, typeAtPath(t, path), "g")
 	}
 	return v
+}
+
+// havocArgs forgets the contents of the slices and maps handed to a callee that may write them.
+func (ex *Exec) havocArgs(st *State, args []Val) {
+	var walk func(v Val, d int)
+	walk = func(v Val, d int) {
+		if d > 3 {
+			return
+		}
+		switch x := v.(type) {
+		case *SliceV:
+			if x.ArrPtr != nil {
+				return
+			}
+			key, as := sliceKey(x.Elem)
+			h := ex.heapArrE(st, key, as)
+			st.heap[key] = store(h, x.Back, ex.declare("arr_havoc", as))
+		case *StructV:
+			for _, f := range x.F {
+				walk(f, d+1)
+			}
+		case *IfaceV:
+			walk(x.V, d+1)
+		case *MapV:
+			for k, a := range st.heap {
+				if strings.HasPrefix(k, "map#") {
+					_, inner := arraySorts(a.Sort)
+					st.heap[k] = store(a, x.Sym, ex.declare("map_havoc", inner))
+				}
+			}
+		}
+	}
+	for _, a := range args {
+		walk(a, 0)
+	}
 }
